@@ -1,6 +1,7 @@
 import PP.Driver.Sexp
 import PP.Model.Layout
 import PP.Model.Render
+import PP.Spec.CheckLay
 namespace PP
 open Sexp
 
@@ -54,6 +55,17 @@ def encodeSDoc : SDoc → Sexp
   | .line i => .list [sym "l", ofInt i]
   | .push a => .list [sym "push", encodeAnn a]
   | .pop a => .list [sym "pop", encodeAnn a]
+
+def decodeSDoc : Sexp → Option SDoc
+  | .list (.atom "t" :: cs) => do some (.text (← nats? cs))
+  | .list [.atom "l", i] => do some (.line (← int? i))
+  | .list [.atom "push", a] => do some (.push (← decodeAnn a))
+  | .list [.atom "pop", a] => do some (.pop (← decodeAnn a))
+  | _ => none
+
+def decodeSDocs : Sexp → Option (List SDoc)
+  | .list (.atom "sdocs" :: xs) => xs.mapM decodeSDoc
+  | _ => none
 
 def encodeSDocs (out : List SDoc) : Sexp := .list (sym "sdocs" :: out.map encodeSDoc)
 
